@@ -231,6 +231,37 @@ class MemoWrap:
         return k in self.real
 
 
+LOCK_TYPES = (type(threading.RLock()), type(threading.Lock()))
+
+
+def walk(exprs):
+    """all elements reachable from the grammars (through .expr / .exprs), each once"""
+    seen, out, todo = set(), [], list(exprs)
+    while todo:
+        e = todo.pop()
+        if e is None or id(e) in seen:
+            continue
+        seen.add(id(e))
+        out.append(e)
+        sub = getattr(e, "exprs", None)
+        if isinstance(sub, (list, tuple)):
+            todo.extend(sub)
+        one = getattr(e, "expr", None)
+        if one is not None and not isinstance(one, str):
+            todo.append(one)
+    return out
+
+
+def instance_locks(exprs):
+    """(element, attribute, lock object) for every lock stored on an element INSTANCE"""
+    out = []
+    for e in walk(exprs):
+        for attr, v in sorted(getattr(e, "__dict__", {}).items()):
+            if isinstance(v, LOCK_TYPES) or isinstance(v, LockWrap):
+                out.append((e, attr, v))
+    return out
+
+
 def set_mode(pp, mode):
     """mode: ('off',) | ('packrat', size|None) | ('lr',)"""
     PE = pp.ParserElement
@@ -251,8 +282,14 @@ def current():
 class Session:
     """one instrumented case; use as a context manager"""
 
-    def __init__(self, pp, mode, interner=None, gran="region", fine=False):
+    def __init__(self, pp, mode, interner=None, gran="region", fine=False, exprs=(), start_park=False):
+        """exprs: grammars whose elements are searched for INSTANCE-level lock attributes (the unchanged code has
+        none: both locks are class attributes of ParserElement); any found is wrapped as lock F<i> and scheduled like
+        the class-level ones.  start_park: every worker first parks at a `start` point BEFORE calling its function, so
+        that a schedule decides when the thread enters its entry point at all."""
         self.pp, self.mode = pp, mode
+        self.exprs, self.start_park = list(exprs), start_park
+        self.locks, self.inst_saved = {}, []
         self.I = interner or Interner()
         self.gran = gran  # region | lock | event | fine
         self.trace = []
@@ -284,6 +321,12 @@ class Session:
         self.R = LockWrap(self, "R", type(PE.recursion_lock)())
         self.C = CacheWrap(self, PE.packrat_cache)
         self.M = MemoWrap(self, PE.recursion_memos)
+        self.locks = {"P": self.P, "R": self.R}
+        for e, attr, lock in instance_locks(self.exprs):
+            w = LockWrap(self, f"F{len(self.inst_saved) + 1}", type(lock)())
+            self.locks[w.name] = w
+            self.inst_saved.append((e, attr, lock))
+            setattr(e, attr, w)
         PE.packrat_cache_lock, PE.recursion_lock = self.P, self.R
         PE.packrat_cache, PE.recursion_memos = self.C, self.M
         CURRENT[0] = self
@@ -308,6 +351,8 @@ class Session:
         PE = self.pp.ParserElement
         s = self.saved
         CURRENT[0] = None
+        for e, attr, lock in self.inst_saved:
+            setattr(e, attr, type(lock)() if (self.stuck or self.deadlock) else lock)
         if self.stuck or self.deadlock:
             # a real lock may be held for ever by a dead/stuck thread: hand out fresh ones
             PE.packrat_cache_lock, PE.recursion_lock = threading.RLock(), threading.RLock()
@@ -329,18 +374,18 @@ class Session:
 
     def visible(self, tid, ev):
         k = ev[0]
-        if k in ("act", "wait"):
+        if k in ("act", "wait", "start"):
             return True
         if k == "line":
             return self.gran == "fine"
         if self.gran in ("event", "fine"):
             return True
-        if self.gran == "lock" and k in ("acqP", "relP", "acqR", "relR"):
+        if k == "start":
+            return True
+        if self.gran == "lock" and k[:3] in ("acq", "rel") and k[3:] in self.locks:
             return True  # every lock operation, re-entrant ones included
-        if k == "acqP":
-            return self.P.owner != tid
-        if k == "acqR":
-            return self.R.owner != tid
+        if k[:3] == "acq" and k[3:] in self.locks:
+            return self.locks[k[3:]].owner != tid
         return False
 
     def park(self, ev, tid):
@@ -391,6 +436,8 @@ class Session:
         if self.gran == "fine" and self.controlled:
             sys.settrace(self._tracer)
         try:
+            if self.start_park and self.controlled:
+                self.park(("start",), w.tid)
             w.outcome = w.fn()
         except Abort:
             w.outcome = ("aborted",)
@@ -408,9 +455,7 @@ class Session:
             if w.finished or w.pending is None:
                 continue
             k = w.pending[0]
-            if k == "acqP" and self.P.owner not in (None, t):
-                continue
-            if k == "acqR" and self.R.owner not in (None, t):
+            if k[:3] == "acq" and k[3:] in self.locks and self.locks[k[3:]].owner not in (None, t):
                 continue
             if k == "wait" and not all(self.workers[u].finished for u in w.pending[1]):
                 continue
@@ -461,8 +506,10 @@ class Session:
                 for t in unfinished:
                     pend = self.workers[t].pending
                     k = pend[0] if pend else "?"
-                    holder = {"acqP": self.P.owner, "acqR": self.R.owner}.get(k)
-                    what = {"acqP": "packrat_cache_lock", "acqR": "recursion_lock"}.get(k, k)
+                    lk = self.locks.get(k[3:]) if k[:3] == "acq" else None
+                    holder = lk.owner if lk is not None else None
+                    what = {"acqP": "packrat_cache_lock", "acqR": "recursion_lock"}.get(
+                        k, f"instance lock {k[3:]}" if lk is not None else k)
                     self.blocked.append([t, what, holder if holder is not None else list(pend[1:]) if pend else None])
             self.abort = True
             # resume parked workers one at a time; they raise Abort at their park point and unwind
